@@ -496,6 +496,11 @@ class TypeMatcherInstance:
                     yield r
 
     def _op(self, op, other):
+        # a comparison with a field the record lacks is False (`r.zz in Type.string` must not hand the
+        # missing-field object to str.__contains__, which raises)
+        if isinstance(other, NoneObject):
+            return False
+
         for v in self._values():
             if op(v, other):
                 return True
